@@ -30,6 +30,16 @@
 (***************************************************************************)
 EXTENDS Naturals, Sequences
 
+\* white space between tokens (grammar rules 61 and 62, code points): tab, the vertical spaces LF VT FF CR, the blank,
+\* NEL, no-break space, Ogham space mark, Mongolian vowel separator, U+2000..U+200B (en quad .. zero width space),
+\* line and paragraph separator, narrow no-break space, medium mathematical space, ideographic space, BOM
+WhiteSpace == (9..13) \cup {32, 133, 160, 5760, 6158} \cup (8192..8203) \cup {8232, 8233, 8239, 8287, 12288, 65279}
+\* three of them are name characters as well (rule 28 gives U+037F..U+1FFF and U+FDF0..U+FFFD to names), so next to
+\* a name the grammar does not say which they are; the layouts use the others
+AmbiguousWhiteSpace == {5760, 6158, 65279}
+LayoutWhiteSpace == WhiteSpace \ AmbiguousWhiteSpace
+
+
 BinOps == {"or", "and", "eq", "nq", "lt", "le", "gt", "ge", "in", "add", "sub", "mul", "div", "exp"}
 CmpOps == {"eq", "nq", "lt", "le", "gt", "ge"}
 OpTok(op) == CASE op = "or" -> "or" [] op = "and" -> "and" [] op = "eq" -> "=" [] op = "nq" -> "!="
